@@ -19,6 +19,11 @@ CLAIMED = {
              'odd n: the single path must end in a throw with all memory obligations met; istft(stft(x)) for every (window, overlap, nfft, range, method) tuple of the grid that the real iscola accepts: '
              'composite map certified linear, rows with non-zero accumulated weight equal unit rows, no output divides by a zero constant.',
              note='REAL arithmetic; irfft input assumed to be the spectrum of a real signal (Im X0 = Im X_{n/2} = 0); non-zero weight means > 1e-6 of the maximum weight.'),
+ 'C03': dict(design='4/C03', text='Every operator x operand-type pairing that the headers support (33 forms x 4 operators; arrays of length 0,1,3 quick / up to 8 thorough) is executed with all '
+             'element values and scalars symbolic (int scalar = 32-bit bit-vector); z3 decides per result element the rational identity with the field formula, operand storage is compared by term identity, '
+             'mismatched lengths must end in a throw with operand storage unchanged at the throw point, aliasing forms a op= a and a op= a[0] included; concatenation (5 kinds), boolean-mask selection with '
+             'symbolic mask bits (all 2^n paths) and index-list selection with symbolic in-range indices are decided exactly.',
+             note='Field formulas over the reals (rounding / signed zeros outside; native replay tolerance 16 ulp of the result scale); lengths above the bound rely on loop uniformity; std::complex scalars only where the headers compile.'),
 }
 ALL = [json.loads(l)['id'] for l in open(os.path.join(V, 'properties.jsonl'))]
 NA_REASON = {}
